@@ -2,6 +2,7 @@ package vm
 
 import (
 	"fmt"
+	"go/types"
 	"sort"
 	"strconv"
 	"strings"
@@ -37,6 +38,48 @@ func (m *Machine) OracleDoc() *oracle.Doc {
 			d.HasURI = cfg.HasURI
 		}
 	}
+	// holes: symbolic literals named as the harness names them
+	for k, spec := range ps.Params {
+		if !strings.HasPrefix(k, "hole.") {
+			continue
+		}
+		name := k[5:]
+		h := &oracle.Hole{}
+		if name[0] == 'h' {
+			if strings.HasPrefix(spec, "int:") {
+				f := strings.Split(spec, ":")
+				lo, _ := strconv.Atoi(f[1])
+				hi, _ := strconv.Atoi(f[2])
+				h.I = m.Ctx.IntVar(name, int64(lo), int64(hi))
+				h.F = m.Ctx.FpFromSBV(h.I)
+				if lo == hi {
+					h.I = m.Ctx.BVC(64, uint64(int64(lo)))
+					h.F = m.Ctx.FPC(float64(lo))
+				}
+			} else {
+				h.F = m.Ctx.Var(name, sym.FP)
+			}
+		} else {
+			ln, ok := ps.Inputs[name+"#len"]
+			if !ok {
+				continue // hole not materialised on this path
+			}
+			n, _ := strconv.Atoi(ln)
+			bs := make([]byte, n)
+			h.B = make([]*sym.Term, n)
+			for i := 0; i < n; i++ {
+				bn := fmt.Sprintf("%s#%d", name, i)
+				c, _ := strconv.Atoi(ps.Inputs[bn])
+				bs[i] = byte(c)
+				if _, isVar := m.Ctx.Vars[bn]; isVar {
+					h.B[i] = m.Ctx.Var(bn, sym.BV(8))
+				}
+			}
+			h.S = string(bs)
+		}
+		d.Holes[name] = h
+	}
+	d.Hint = func(t *sym.Term) sym.Val { return m.evalTerm(t) }
 	m.Scratch["oracleDoc"] = d
 	return d
 }
@@ -83,7 +126,35 @@ func (m *Machine) oracleEval(e oracle.Expr, node int) (v oracle.Val) {
 }
 
 func (m *Machine) addObligation(label string, t *sym.Term, info string) {
-	ob := Obligation{Label: label, PCLen: len(m.PC), Info: info}
+	m.addObligationFB(label, t, info, nil)
+}
+
+// addObligationFB: build is re-run without hints when the lemmas cannot be proved.
+func (m *Machine) addObligationFB(label string, t *sym.Term, info string, build func() *sym.Term) {
+	var lemmas []*sym.Term
+	if d, ok := m.Scratch["oracleDoc"].(*oracle.Doc); ok {
+		if !d.OutsideClaim.IsFalse() {
+			t = m.Ctx.Or(d.OutsideClaim, t)
+			d.OutsideClaim = m.Ctx.F
+		}
+		lemmas = d.Lemmas
+		d.Lemmas = nil
+	}
+	ob := Obligation{Label: label, PCLen: len(m.PC), Info: info, Lemmas: lemmas}
+	if build != nil && len(lemmas) > 0 {
+		ob.Fallback = func() *sym.Term {
+			d := m.Scratch["oracleDoc"].(*oracle.Doc)
+			hint := d.Hint
+			d.Hint = nil
+			defer func() { d.Hint = hint; d.Lemmas = nil }()
+			t := build()
+			if !d.OutsideClaim.IsFalse() {
+				t = m.Ctx.Or(d.OutsideClaim, t)
+				d.OutsideClaim = m.Ctx.F
+			}
+			return t
+		}
+	}
 	if t.IsConst() {
 		ob.Conc = t.IsTrue()
 	} else {
@@ -120,10 +191,6 @@ func registerOracle(m *Machine) {
 		if !ok {
 			abort("context node outside the universe")
 		}
-		v := m.oracleEval(m.oracleExpr(key), node)
-		if v.K != oracle.KNodeSet {
-			abort("oracle: expression %s is not a node-set", key)
-		}
 		in := map[int]bool{}
 		bogus := false
 		for _, g := range a[3].([]value) {
@@ -135,28 +202,107 @@ func registerOracle(m *Machine) {
 			}
 			in[k] = true
 		}
-		var conj []*sym.Term
 		var expect, gotIdx []int
-		for i, t := range v.NS {
-			if in[i] {
-				conj = append(conj, t)
-				gotIdx = append(gotIdx, i)
-			} else {
-				conj = append(conj, m.Ctx.Not(t))
+		build := func() *sym.Term {
+			v := m.oracleEval(m.oracleExpr(key), node)
+			if v.K != oracle.KNodeSet {
+				abort("oracle: expression %s is not a node-set", key)
 			}
-			if m.evalTerm(t).B() {
-				expect = append(expect, i)
+			var conj []*sym.Term
+			expect, gotIdx = nil, nil
+			for i, t := range v.NS {
+				if in[i] {
+					conj = append(conj, t)
+					gotIdx = append(gotIdx, i)
+				} else {
+					conj = append(conj, m.Ctx.Not(t))
+				}
+				if m.evalTerm(t).B() {
+					expect = append(expect, i)
+				}
 			}
+			if bogus {
+				return m.Ctx.F
+			}
+			return m.Ctx.And(conj...)
 		}
+		t := build()
 		sort.Ints(gotIdx)
-		t := m.Ctx.And(conj...)
-		if bogus {
-			t = m.Ctx.F
-		}
 		if len(expect) > 0 {
 			m.PS().Flags["nontrivial"] = true
 		}
-		m.addObligation(key+":set", t, fmt.Sprintf("got %s reference(model) %s", refString(d, gotIdx), refString(d, expect)))
+		m.addObligationFB(key+":set", t, fmt.Sprintf("got %s reference(model) %s", refString(d, gotIdx), refString(d, expect)), build)
+		return nil
+	}
+}
+
+// scalar obligations ------------------------------------------------------
+
+func (m *Machine) checkCtx(a []value) (string, int) {
+	key := concStr(a[0])
+	cur := int(asInt(m.concretize(a[1])))
+	attr := int(asInt(m.concretize(a[2])))
+	node, ok := indexNode(m.OracleDoc(), cur, attr)
+	if !ok {
+		abort("context node outside the universe")
+	}
+	return key, node
+}
+
+func registerOracleScalars(m *Machine) {
+	e := m.ext
+	e[hpkg+"vCheckBool"] = func(m *Machine, fr *frame, a []value) value {
+		key, node := m.checkCtx(a)
+		d := m.OracleDoc()
+		got := m.termOf(a[3], types.Typ[types.Bool])
+		var ref *sym.Term
+		build := func() *sym.Term {
+			v := m.oracleEval(m.oracleExpr(key), node)
+			if v.K != oracle.KBool {
+				abort("oracle: expression %s is not boolean-valued", key)
+			}
+			ref = d.Boolean(v)
+			return m.Ctx.Eq(got, ref)
+		}
+		t := build()
+		m.addObligationFB(key+":bool", t, fmt.Sprintf("got %v reference(model) %v", conc(a[3]), m.evalTerm(ref).B()), build)
+		return nil
+	}
+	e[hpkg+"vCheckNum"] = func(m *Machine, fr *frame, a []value) value {
+		key, node := m.checkCtx(a)
+		got := m.termOf(a[3], types.Typ[types.Float64])
+		var ref *sym.Term
+		build := func() *sym.Term {
+			v := m.oracleEval(m.oracleExpr(key), node)
+			if v.K != oracle.KNum {
+				abort("oracle: expression %s is not number-valued", key)
+			}
+			ref = v.F
+			// the same IEEE-754 double: SMT '=' on FP (all NaNs equal, +0 != -0)
+			return m.Ctx.Eq(got, v.F)
+		}
+		t := build()
+		m.addObligationFB(key+":number", t, fmt.Sprintf("got %v reference(model) %v", conc(a[3]), m.evalTerm(ref).F()), build)
+		return nil
+	}
+	e[hpkg+"vCheckStr"] = func(m *Machine, fr *frame, a []value) value {
+		key, node := m.checkCtx(a)
+		v := m.oracleEval(m.oracleExpr(key), node)
+		if v.K != oracle.KStr {
+			abort("oracle: expression %s is not string-valued", key)
+		}
+		d := m.OracleDoc()
+		gs, gb := strBytes(a[3])
+		gotCase := oracle.StrCase{Cond: m.Ctx.T, S: gs, B: gb}
+		var disj []*sym.Term
+		refStr := "?"
+		for _, sc := range v.S {
+			disj = append(disj, m.Ctx.And(sc.Cond, d.CaseEq(sc, gotCase)))
+			if m.evalTerm(sc.Cond).B() {
+				refStr = d.CaseConcrete(sc, func(t *sym.Term) byte { return byte(m.evalTerm(t).U) })
+			}
+		}
+		m.addObligation(key+":string", m.Ctx.Or(disj...), fmt.Sprintf("got %q reference(model) %q", gs, refStr))
 		return nil
 	}
 }
